@@ -7,6 +7,8 @@ import PdfModel.Lemmas.TotalXrefTable
 import PdfModel.Lemmas.TotalXrefStream
 import PdfModel.Lemmas.TotalOpen
 import PdfModel.Lemmas.TotalGlue
+import PdfModel.Lemmas.DeriveRegistryTotal
+import PdfModel.Generated.Schemas
 import PdfModel.Props.C02
 import PdfModel.Props.C05
 import PdfModel.Props.C11
@@ -473,7 +475,62 @@ theorem open_walk_concrete {R : Type} (env : Env R) (typed : Dict R → Out Xref
   Xref.walk_visits_chain _ buf start fuel newest older size hx hin hfit hnew hsize hmax hread hlink hnd hfuel
 
 -- ===================================================================================================
--- 7. non-vacuity, regression witnesses
+-- 7. the typed layer: derive-generated loaders
+
+/-- **`derived_reader_total`.** The reader that `#[derive(Object)]` generates for a struct (`Model/Derive.readStruct`:
+    the `/Type` test, the checks, the fields in declaration order with `default`, catch-all and error wrapping, on top of
+    the container impls `Option` / `Vec` / `HashMap` / pair / `Box` / `MaybeRef` / `RcRef` / `Ref` / `Lazy`) returns a
+    value or an error of the implementation — never the model's `oof`; the model has no panic outcome, none of these
+    functions indexes, unwraps or computes — for EVERY schema, every input primitive, strict and tolerant, given
+    readers of the leaf shapes and default expressions that do (`SchemaOk`) and a resolver that does (`EnvOk`). -/
+theorem derived_reader_total (cfg : Derive.Cfg) (sem : Derive.Sem) (env : Derive.Env) (he : Derive.EnvOk env)
+    (S : Derive.Schema) (hS : Derive.SchemaOk sem env S) (p : Derive.Prim) (hp : p.plain = true) :
+    Derive.Clean (Derive.readStruct cfg sem env S p) :=
+  Derive.readStruct_clean cfg sem he S hS p hp
+
+/-- The derived enum readers (name enums with an `other` variant, integer enums). -/
+theorem derived_enum_total (env : Derive.Env) (he : Derive.EnvOk env) (S : Derive.Schema) (p : Derive.Prim)
+    (hp : p.plain = true) : Derive.Clean (Derive.readEnum env S p) :=
+  Derive.readEnum_clean he S p hp
+
+/-- **Over the generated schemas.** Reading ANY primitive as ANY of the derived models extracted from `pdf/src` (60 at
+    this commit; regenerated from the source on every run), to ANY nesting budget `n`, through all nested derived
+    models, `PagesNode` / `PagesRc` / `PageRc` and every `default = ".."`, is a value or an error — given readers `hand` of
+    the hand-written shapes (`Derive.isHand`) that are. `hreg` is the decidable `RegistryOk` of the generated data (every
+    default is of a form that evaluates; `Page` and `PageTree` exist): Lean's kernel cannot run `String.toInt?` /
+    `splitOn`, so it is an explicit hypothesis here and is evaluated by the compiled model driver on every run
+    (stream `c01.registry`). -/
+theorem typed_registry_total (cfg : Derive.Cfg) (hreg : Derive.RegistryOk Generated.generatedSchemas)
+    (hand : Derive.Env → Derive.Shape → Derive.Prim → Derive.R Derive.Val)
+    (hhand : ∀ env, Derive.EnvOk env → ∀ s p, p.plain = true → Derive.Clean (hand env s p))
+    (n : Nat) (env : Derive.Env) (he : Derive.EnvOk env) (S : Derive.Schema) (hS : S ∈ Generated.generatedSchemas)
+    (p : Derive.Prim) (hp : p.plain = true) :
+    Derive.Clean ((Derive.semH cfg Generated.generatedSchemas hand (n + 1)).rd env (.model S.name) p) ∧
+    Derive.Clean (Derive.readStruct cfg (Derive.semH cfg Generated.generatedSchemas hand n) env S p) := by
+  refine ⟨Derive.semH_clean cfg _ hreg hand hhand (n + 1) env he _ p hp, ?_⟩
+  exact Derive.readStruct_clean cfg _ he S
+    (Derive.schemaOk_of cfg _ hand n env (fun s q hq => Derive.semH_clean cfg _ hreg hand hhand n env he s q hq) S
+      (hreg.dflt S hS)) p hp
+
+/-- **Typed load of any object as any derived model terminates without panic.** Two theorems about the same code,
+    side by side: the *control* of nested loads (`StorageResolver::get`: recursion guard, 64 nested gets; `Model/TypedLoad`,
+    C14) returns on every object graph — cyclic, self-referential, dangling — with fuel `objects + 1` and never nests
+    deeper than 64; the *values* (`Model/Derive` over the generated schemas) are read without partiality at every
+    nesting budget, where a used-up budget is the guard's `Err`. What links them is not proved: that the budget `n` of
+    the value model is the guard of the control model (64 gets × at most `MAX_DEPTH` = 20 directly nested dictionaries per
+    object, `parse_nesting_bounded`). -/
+theorem typed_load_total (cfg : Derive.Cfg) (hreg : Derive.RegistryOk Generated.generatedSchemas)
+    (hand : Derive.Env → Derive.Shape → Derive.Prim → Derive.R Derive.Val)
+    (hhand : ∀ env, Derive.EnvOk env → ∀ s p, p.plain = true → Derive.Clean (hand env s p)) :
+    (∀ (n : Nat) (env : Derive.Env), Derive.EnvOk env → ∀ (s : Derive.Shape) (p : Derive.Prim), p.plain = true →
+        Derive.Clean ((Derive.semH cfg Generated.generatedSchemas hand n).rd env s p)) ∧
+    (∀ (g : TypedLoad.Graph) (tolerant : Bool) (k : Nat),
+        TypedLoad.load g tolerant (g.length + 1) [] k ≠ .oof ∧ TypedLoad.load g tolerant (g.length + 1) [] k ≠ .panic) :=
+  ⟨Derive.semH_clean cfg _ hreg hand hhand,
+   fun g tolerant k => ⟨C14.guarded_load_terminates g tolerant k, C14.guarded_load_never_panics g tolerant _ _ _⟩⟩
+
+-- ===================================================================================================
+-- 8. non-vacuity, regression witnesses
 
 /-- an environment without resolver and without decryption; reals are kept as their token text -/
 def textEnv : Env (List UInt8) :=
